@@ -411,6 +411,13 @@ fn create_pkg_length(len: usize, include_self: bool) -> Vec<u8> {
     result
 }
 
+/// Verification hook: pass-through to the private PkgLength encoder, so that the whole
+/// domain of lengths can be swept without materialising bodies of that size.
+#[cfg(rust_vmm_acpi_tables_verif)]
+pub fn verif_create_pkg_length(len: usize, include_self: bool) -> Vec<u8> {
+    create_pkg_length(len, include_self)
+}
+
 /// EISAName object. 'value' means the encoded u32 EisaIdString.
 pub struct EISAName {
     value: DWord,
